@@ -235,3 +235,43 @@ entry:
 bb:
   ret void
 }
+;;; ATOM const/blockaddress-same-block-name-in-two-functions
+@a = global i8* blockaddress(@f, %bb)
+@b = global i8* blockaddress(@g, %bb)
+@c = global [2 x i8*] [i8* blockaddress(@g, %bb), i8* blockaddress(@f, %bb)]
+@d = global i8* blockaddress(@g, %only.in.g)
+
+define void @f(i1 %c) {
+entry:
+  br i1 %c, label %bb, label %exit
+bb:
+  ret void
+exit:
+  ret void
+}
+
+define void @g(i1 %c) {
+entry:
+  br i1 %c, label %bb, label %only.in.g
+bb:
+  unreachable
+only.in.g:
+  ret void
+}
+;;; ATOM const/float-literals-of-named-float-types
+%real = type x86_fp80
+%quad = type fp128
+%pair = type ppc_fp128
+%h = type half
+%d = type double
+@g1 = global %real 0xK3FFF8000000000000000
+@g2 = global %quad 0xL00000000000000003FFF000000000000
+@g3 = global %pair 0xM3FF00000000000000000000000000000
+@g4 = global %h 0xH3C00
+@g5 = global %d 1.5
+@g6 = global [2 x %real] [%real 0xK4000C000000000000000, %real 0xKBFFF8000000000000000]
+
+define %real @f(%real %x) {
+  %y = fadd %real %x, 0xK3FFF8000000000000000
+  ret %real %y
+}
